@@ -40,6 +40,15 @@ var solvers = []solverSpec{
 	{"z3-new/nogrobner", func(f string, t int) []string {
 		return []string{"z3-new", "smt.arith.nl.grobner=false", fmt.Sprintf("-T:%d", t), f}
 	}, ""},
+	{"z3-new/nogrobner-notangents", func(f string, t int) []string {
+		return []string{"z3-new", "smt.arith.nl.grobner=false", "smt.arith.nl.tangents=false", fmt.Sprintf("-T:%d", t), f}
+	}, ""},
+	{"z3-new/seed5", func(f string, t int) []string {
+		return []string{"z3-new", "smt.random_seed=5", "smt.arith.nl.grobner=false", fmt.Sprintf("-T:%d", t), f}
+	}, ""},
+	{"z3-new/seed11", func(f string, t int) []string {
+		return []string{"z3-new", "smt.random_seed=11", fmt.Sprintf("-T:%d", t), f}
+	}, ""},
 }
 
 func (c *Ctx) errAxiom(body string) string {
